@@ -160,6 +160,73 @@ theorem C02_steps_equivalence_ext (dss : List (List Call)) (hx : ∀ ds ∈ dss,
       subst e
       exact ⟨cond, hc, by rw [← rep_val hj X n cond hrep]; exact hb⟩
 
+/-- **C02 (several steps, minimize statements)**: `C02_steps_outputs` together with the invariant `MO` for the minimize statements emitted over all steps -/
+theorem C02_steps_minimize (ext : Bool) (dss : List (List Call)) (hx : ∀ ds ∈ dss, ∀ d ∈ ds, PlainOk d)
+    (hnh : ∀ ds ∈ dss, ∀ d ∈ ds, isHeu d = false) (hE : (∀ ds ∈ dss, extCalls ds = []) ∨ ext = true) :
+    ∃ defs, J (convert ext (stepsCalls dss)) ((rulesOf dss.flatten).filter kept) defs ∧
+      KO (convert ext (stepsCalls dss)) (srcOuts dss.flatten) defs ∧ MO (convert ext (stepsCalls dss)) (minsOf dss.flatten) := by
+  have a1 : J (CS.apply { ext := ext } (.initProgram true)) [] [] := by
+    rw [apply_init _ rfl]; exact (J.init ext).emit _ rfl
+  have d1 : XI (CS.apply { ext := ext } (.initProgram true)) {} := by
+    rw [apply_init _ rfl]; exact (XI.init ext).emit _
+  have k1 : KO (CS.apply { ext := ext } (.initProgram true)) [] [] := by
+    rw [apply_init _ rfl]
+    exact ⟨rfl, rfl, (by intro o ho; cases ho), (by intro p hp; simp [CS.emit, outsOf, outOf] at hp)⟩
+  have m1 : MO (CS.apply { ext := ext } (.initProgram true)) [] := by
+    rw [apply_init _ rfl]
+    exact ⟨rfl, [], (by intro m _; simp [CS.emit, minsOf, minOf]), (by intro X p; rfl), (by intro pl hpl; cases hpl)⟩
+  have hE' : (∀ ds ∈ dss, extCalls ds = []) ∨ (CS.apply { ext := ext } (.initProgram true)).ext = true := by
+    rcases hE with h | h
+    · exact Or.inl h
+    · right; rw [apply_init _ rfl]; exact h
+  obtain ⟨defs, t, hj, _, _, hko, hmo⟩ := steps_JXOM dss hx hnh a1 d1 rfl k1 m1 hE'
+  rw [List.nil_append] at hj hko hmo
+  rw [convert_steps_eq]
+  exact ⟨defs, hj, hko, hmo⟩
+
+/-- **C02 (several steps, optimisation)**: for incremental programs of any number of steps without external directives (either setting of the extension),
+    under corresponding answer sets and for every priority, the minimize statements emitted over ALL steps cost what the minimize statements given over all
+    steps cost, minus a constant (the sum of the negative weights of that priority): the order of answer sets by cost is the same. -/
+theorem C02_steps_cost (ext : Bool) (dss : List (List Call)) (hx : ∀ ds ∈ dss, ∀ d ∈ ds, PlainOk d)
+    (hnh : ∀ ds ∈ dss, ∀ d ∈ ds, isHeu d = false) (hE : ∀ ds ∈ dss, extCalls ds = []) :
+    ∃ E : I → I,
+      (∀ X, Stable (rulesOf dss.flatten) X →
+        Stable (rulesOf (convert ext (stepsCalls dss)).out) (E X) ∧ E X 1 = false ∧ restrict (convert ext (stepsCalls dss)) (E X) = X) ∧
+      (∀ X', Stable (rulesOf (convert ext (stepsCalls dss)).out) X' → X' 1 = false → E (restrict (convert ext (stepsCalls dss)) X') = X') ∧
+      (∀ X p, costAt (convert ext (stepsCalls dss)).out p (E X) = costAt dss.flatten p X - negM (minsOf dss.flatten) p) := by
+  obtain ⟨defs, hj, _, hmo⟩ := C02_steps_minimize ext dss hx hnh (Or.inl hE)
+  have ok := ctx_ok hj
+  have tr := ctx_trans hj
+  refine ⟨fun X => (ctxOf (convert ext (stepsCalls dss)) defs).E X X, ?_, ?_, ?_⟩
+  · intro X hs
+    have hs' := (stable_filter_kept _ X).mpr hs
+    obtain ⟨h1, h2, h3⟩ := translation_stable ok tr hs'
+    refine ⟨h1, h2, ?_⟩
+    rw [restrict_eq _ hj.inv defs]; exact h3
+  · intro X' hs h1
+    obtain ⟨h2, h3⟩ := translation_stable_back ok tr X' hs h1
+    rw [restrict_eq _ hj.inv defs]
+    exact h3.symm
+  · intro X p
+    obtain ⟨TT, t1, t2, t3⟩ := hmo.tab
+    unfold costAt
+    rw [t1 _ (agree_final _ hj.inv)]
+    have := costM_ren ok X TT t3 p
+    refine this.trans ?_
+    rw [t2 X p]
+    apply costM_flip
+    intro pl hpl q hq
+    have hmem : ∃ d ∈ dss.flatten, minOf d = some pl := by
+      simp only [minsOf, List.mem_filterMap] at hpl; exact hpl
+    obtain ⟨d, hd, he⟩ := hmem
+    obtain ⟨ds, hds, hdd⟩ := List.mem_flatten.mp hd
+    cases d with
+    | minimize prio lits =>
+      simp only [minOf, Option.some.injEq] at he
+      subst he
+      exact ((hx ds hds _ hdd) q hq).1
+    | _ => simp [minOf] at he
+
 /-! #### non-vacuity: two steps; the name given in step 1 stays shown on its condition in step 2, a second name joins it -/
 def exStepsO : List (List Call) :=
   [[.rule 1 [1, 2] [], .output [97] [1, -2]],          -- {x1; x2}.  #output a : x1, not x2.
@@ -169,5 +236,15 @@ example : (∀ ds ∈ exStepsO, ∀ d ∈ ds, PlainOk d) ∧ (∀ ds ∈ exSteps
   refine ⟨?_, ?_, ?_⟩ <;> simp [exStepsO, PlainOk, isHeu, extCalls, extOf]
 
 example : outsOf (convert true (stepsCalls exStepsO)).out = [([97], [4]), ([98], [5])] := by decide +kernel
+
+/-- minimize statements in two steps, one with a negative weight: both are emitted, the negative weight on the complementary literal -/
+def exStepsM : List (List Call) :=
+  [[.rule 1 [1, 2] [], .minimize 0 [(1, 2), (-2, 1)]], [.rule 0 [3] [1], .minimize 0 [(3, -4)], .minimize 1 [(2, 1)]]]
+
+example : (∀ ds ∈ exStepsM, ∀ d ∈ ds, PlainOk d) ∧ (∀ ds ∈ exStepsM, ∀ d ∈ ds, isHeu d = false) ∧ (∀ ds ∈ exStepsM, extCalls ds = []) := by
+  refine ⟨?_, ?_, ?_⟩ <;> simp [exStepsM, PlainOk, isHeu, extCalls, extOf, I32MINc]
+  all_goals (try (intros; omega))
+
+example : minsOf (convert false (stepsCalls exStepsM)).out = [(0, [(2, 2), (-3, 1)]), (0, [(-4, 4)]), (1, [(3, 1)])] := by decide +kernel
 
 end PotasscoVerif.C02
